@@ -56,8 +56,7 @@ def main():
         sh("git -C %s checkout -- ." % REPO)
         sh("git -C %s clean -fdq" % REPO)
         # the generated Lean files were rebuilt from the changed source: regenerate them from the restored tree
-        sh("cd %s/harness && /venv/bin/python -c \"import sys; sys.path.insert(0, '.'); from translate import named, templates, statesig, leaves, optimiser, strhelpers, clisrc, parserseq, cliresolve, parsersrc, api, convstr, climain; "
-           "[m.generate() for m in (named, templates, statesig, leaves, optimiser, strhelpers, clisrc, parserseq, cliresolve, parsersrc, api, convstr, climain)]\"" % VERIF)
+        sh("cd %s/harness && /venv/bin/python -c \"import sys; sys.path.insert(0, '.'); from translate import all as a; a.generate_all()\"" % VERIF)
     if os.path.exists(demo):
         r = sh("cd /tmp && PYTHONPATH=%s/src /venv/bin/python %s" % (REPO, demo), timeout=600)
         res["demo_without_change_exit"] = r.returncode
